@@ -62,6 +62,10 @@ def gen_cases(tier, seed):
         plist += [Q(['reincarnate'], ['kill', 'k']), Q(['pause', 'p'], ['reincarnate'], ['kill', 'k']), Q(['reincarnate'], ['pause', 'p'], ['kill', 'k']),
                   Q(['reincarnate'], ['cancel_future']), [{'at': 1, 'act': ['pause', 'p']}] + Q(['reincarnate'], ['kill', 'k']),
                   Q(['reincarnate'], ['reincarnate'], ['kill', 'k']), Q(['reincarnate'], ['soon_kill', 'wd'])]
+        # the kill is requested by code whose current event loop is another one than the process's (a synchronous driver acting between two
+        # slices of the loop): at the first quiescent points, and before the first step
+        for j, fplan in enumerate([Q(['kill', 'k']), Q(['pause', 'p'], ['kill', 'k']), [{'at': 0, 'act': ['kill', 'k']}], [{'at': 0, 'act': ['pause', 'p']}] + Q(['kill', 'k'])]):
+            yield {'name': name, 'program': prog, 'plan': plans.uniq(fplan, 'f%d' % j), 'drain': True, 'probe': True, 'listener': True, 'foreign_loop_outside': True}
         # two requests issued from listener callbacks in one run (the second possibly while the first is being carried out)
         for ev1, a1 in (('waiting', ['pause', 'p']), ('running', ['pause', 'p']), ('waiting', ['kill', 'k']), ('running', ['kill', 'k'])):
             for ev2, a2 in (('paused', ['kill', 'k']), ('paused', ['play']), ('played', ['kill', 'k']), ('waiting', ['kill', 'k']), ('running', ['kill', 'k']),
